@@ -12,7 +12,24 @@ def _perm_sign(perm):
     return SScal(alg.psign(perm.term), z3.RealVal(0))
 
 
+def _exact_call(self, A, k):
+    """contract of Exact.__call__ / exact_diag: the k-th diagonal of M(A), exactly (body: IDX obligations of C08)"""
+    from contracts.generic import _diag_res
+    return _diag_res(A, k)
+
+
+def _hutch_call(self, A, k):
+    """contract of Hutch.__call__: an estimate - a vector of the right length about which nothing exact is known"""
+    from vcgen.proxy import AMat, SInt
+    import z3 as _z3
+    kk = SInt.lift(k)
+    n = SInt.lift(A.shape[0]) - SInt(_z3.If(kk.term >= 0, kk.term, -kk.term))
+    return AMat.const("hutch_estimate", (n,), A.dtype)
+
+
 PLAIN = {
+    ("cola.linalg.trace.diagonal_estimation", "Exact.__call__"): _exact_call,
+    ("cola.linalg.trace.diagonal_estimation", "Hutch.__call__"): _hutch_call,
     # ensures r = sign of the permutation (= det of its matrix, lemma sld_permm); body checked by the bounded stand-in
     # props/c07.py::bounded_permutation_sign
     ("cola.linalg.logdet.logdet", "permutation_sign"): _perm_sign,
